@@ -643,4 +643,380 @@ theorem ptk_ren : ∀ (kvs : List (Str × Val)) (t : Str), RenTailK kvs t →
       simp [decK, insAll]
 end
 
+/-! ### Part 2: without the pair layout `pretty` is a rendering -/
+
+def keysOf (kvs : List (Str × Val)) : List Str := kvs.map (·.1)
+
+def nodupKeys : List (Str × Val) → Bool
+  | [] => true
+  | (k, _) :: kvs => !(keysOf kvs).contains k && nodupKeys kvs
+
+mutual
+/-- JSON-representable trees: keys unique in every dict, float lexemes are JSON float lexemes -/
+def wf : Val → Bool
+  | .list _ xs => wfL xs
+  | .dict _ kvs => wfK kvs && nodupKeys kvs
+  | .flt r => fltOk r
+  | _ => true
+def wfL : List Val → Bool
+  | [] => true
+  | x :: xs => wf x && wfL xs
+def wfK : List (Str × Val) → Bool
+  | [] => true
+  | (_, v) :: kvs => wf v && wfK kvs
+end
+
+mutual
+/-- nesting depth: a scalar has depth 0, a container one more than its deepest item -/
+def depth : Val → Nat
+  | .list _ xs => 1 + depthL xs
+  | .dict _ kvs => 1 + depthK kvs
+  | _ => 0
+def depthL : List Val → Nat
+  | [] => 0
+  | x :: xs => max (depth x) (depthL xs)
+def depthK : List (Str × Val) → Nat
+  | [] => 0
+  | (_, v) :: kvs => max (depth v) (depthK kvs)
+end
+
+theorem Ws_nlAt (o : Opts) (m : Nat) : Ws (nlAt o m) := by
+  unfold nlAt
+  split
+  · exact Ws_nil
+  · exact Ws_cons (by decide) (Ws_replicate _)
+
+theorem Ws_sp (o : Opts) : Ws (sp o) := by
+  unfold sp
+  split
+  · exact Ws_nil
+  · exact Ws_cons (by decide) Ws_nil
+
+theorem Ren_ne_nil {v : Val} {s : Str} (h : Ren v s) : s ≠ [] := by
+  obtain ⟨c, r, rfl, _⟩ := Ren_startsOk v s h
+  simp
+
+theorem RenTail_ws : ∀ (xs : List Val) (t w : Str), RenTail xs t → Ws w → RenTail xs (t ++ w)
+  | [], t, w, h, hw => by simp only [RenTail] at h ⊢; exact Ws_append h hw
+  | y :: ys, t, w, h, hw => by
+    simp only [RenTail] at h ⊢
+    obtain ⟨w1, w2, r, t', h1, h2, hr, ht, rfl⟩ := h
+    exact ⟨w1, w2, r, t' ++ w, h1, h2, hr, RenTail_ws ys t' w ht hw, by simp⟩
+
+theorem RenTail_snoc : ∀ (xs : List Val) (t w r : Str) (y : Val), RenTail xs t → Ws w → Ren y r →
+    RenTail (xs ++ [y]) (t ++ ',' :: (w ++ r))
+  | [], t, w, r, y, h, hw, hr => by
+    simp only [RenTail] at h
+    simp only [List.nil_append, RenTail]
+    exact ⟨t, w, r, [], h, hw, hr, Ws_nil, by simp⟩
+  | z :: zs, t, w, r, y, h, hw, hr => by
+    simp only [RenTail] at h
+    obtain ⟨w1, w2, r0, t0, h1, h2, hr0, ht0, rfl⟩ := h
+    simp only [List.cons_append, RenTail]
+    exact ⟨w1, w2, r0, t0 ++ ',' :: (w ++ r), h1, h2, hr0, RenTail_snoc zs t0 w r y ht0 hw hr, by simp⟩
+
+theorem RenTailK_ws : ∀ (xs : List (Str × Val)) (t w : Str), RenTailK xs t → Ws w → RenTailK xs (t ++ w)
+  | [], t, w, h, hw => by simp only [RenTailK] at h ⊢; exact Ws_append h hw
+  | (k, v) :: ys, t, w, h, hw => by
+    simp only [RenTailK] at h ⊢
+    obtain ⟨wa, wb, w1, w2, r, t', ha, hb, h1, h2, hr, ht, rfl⟩ := h
+    exact ⟨wa, wb, w1, w2, r, t' ++ w, ha, hb, h1, h2, hr, RenTailK_ws ys t' w ht hw, by simp⟩
+
+theorem RenTailK_snoc : ∀ (xs : List (Str × Val)) (t wb w2 r k : Str) (v : Val), RenTailK xs t →
+    Ws wb → Ws w2 → Ren v r →
+    RenTailK (xs ++ [(k, v)]) (t ++ ',' :: (wb ++ (quoted k ++ (':' :: (w2 ++ r)))))
+  | [], t, wb, w2, r, k, v, h, hb, h2, hr => by
+    simp only [RenTailK] at h
+    simp only [List.nil_append, RenTailK]
+    exact ⟨t, wb, [], w2, r, [], h, hb, Ws_nil, h2, hr, Ws_nil, by simp⟩
+  | (k0, v0) :: zs, t, wb, w2, r, k, v, h, hb, h2, hr => by
+    simp only [RenTailK] at h
+    obtain ⟨wa', wb', w1', w2', r0, t0, ha', hb', h1', h2', hr0, ht0, rfl⟩ := h
+    simp only [List.cons_append, RenTailK]
+    exact ⟨wa', wb', w1', w2', r0, _, ha', hb', h1', h2', hr0,
+      RenTailK_snoc zs t0 wb w2 r k v ht0 hb h2 hr, by simp⟩
+
+/-- the accumulated body after the items `done` have been printed -/
+def AccL : List Val → Str → Prop
+  | [], acc => acc = []
+  | x :: rest, acc => ∃ r t, Ren x r ∧ RenTail rest t ∧ acc = r ++ t
+
+def AccK : List (Str × Val) → Str → Prop
+  | [], acc => acc = []
+  | (k, v) :: rest, acc => ∃ w1 w2 r t, Ws w1 ∧ Ws w2 ∧ Ren v r ∧ RenTailK rest t ∧
+      acc = quoted k ++ (w1 ++ ':' :: (w2 ++ (r ++ t)))
+
+theorem AccL_step {done : List Val} {acc : Str} (h : AccL done acc) {y : Val} {r w : Str}
+    (hr : Ren y r) (hw : Ws w) :
+    AccL (done ++ [y]) ((if !acc.isEmpty then acc ++ [','] ++ w else acc) ++ r) := by
+  cases done with
+  | nil =>
+    simp only [AccL] at h; subst h
+    simp only [List.nil_append, AccL]
+    exact ⟨r, [], hr, Ws_nil, by simp⟩
+  | cons x rest =>
+    simp only [AccL] at h
+    obtain ⟨r0, t0, hr0, ht0, rfl⟩ := h
+    have hne : (r0 ++ t0).isEmpty = false := by
+      obtain ⟨c, r1, rfl, _⟩ := Ren_startsOk x r0 hr0
+      rfl
+    simp only [hne, List.cons_append, AccL]
+    exact ⟨r0, t0 ++ ',' :: (w ++ r), hr0, RenTail_snoc rest t0 w r y ht0 hw hr, by simp⟩
+
+theorem AccK_step {done : List (Str × Val)} {acc : Str} (h : AccK done acc) {k : Str} {v : Val} {r w w2 : Str}
+    (hr : Ren v r) (hw : Ws w) (hw2 : Ws w2) :
+    AccK (done ++ [(k, v)]) ((if !acc.isEmpty then acc ++ [','] ++ w else acc) ++ (quoted k ++ [':'] ++ w2 ++ r)) := by
+  cases done with
+  | nil =>
+    simp only [AccK] at h; subst h
+    simp only [List.nil_append, AccK]
+    exact ⟨[], w2, r, [], Ws_nil, hw2, hr, Ws_nil, by simp⟩
+  | cons x rest =>
+    obtain ⟨k0, v0⟩ := x
+    simp only [AccK] at h
+    obtain ⟨w1', w2', r0, t0, h1', h2', hr0, ht0, rfl⟩ := h
+    have hne : (quoted k0 ++ (w1' ++ ':' :: (w2' ++ (r0 ++ t0)))).isEmpty = false := by
+      simp [quoted]
+    simp only [hne, List.cons_append, AccK]
+    exact ⟨w1', w2', r0, _, h1', h2', hr0, RenTailK_snoc rest t0 w w2 r k v ht0 hw hw2 hr, by simp⟩
+
+theorem closeUp_nil (o : Opts) (lvl : Nat) (l r : Char) :
+    closeUp o lvl l r [] = if o.skipEmpty then [] else l :: (sp o ++ sp o ++ [r]) := by
+  unfold closeUp
+  cases o.skipEmpty <;> simp
+
+theorem closeUp_ne (o : Opts) (lvl : Nat) (l r : Char) {body : Str} (h : body ≠ []) :
+    ∃ w w', Ws w ∧ Ws w' ∧ closeUp o lvl l r body = l :: (w ++ (body ++ (w' ++ [r]))) := by
+  unfold closeUp
+  have : body.isEmpty = false := by cases body <;> simp at h ⊢
+  simp only [this, Bool.not_false, Bool.true_or, if_true]
+  split
+  · exact ⟨_, _, Ws_nlAt o (lvl + 1), Ws_nlAt o lvl, by simp⟩
+  · exact ⟨_, _, Ws_sp o, Ws_sp o, by simp⟩
+
+def dropL (o : Opts) (xs : List Val) : List Val := if o.skipEmpty then pruneList xs else xs
+def dropK (o : Opts) (kvs : List (Str × Val)) : List (Str × Val) := if o.skipEmpty then pruneKvs kvs else kvs
+
+/-- what `pretty` returns for `t`: nothing when `skip_empty_arrays` drops it, else a rendering -/
+def Out (o : Opts) (t : Val) (s : Str) : Prop :=
+  (o.skipEmpty = true ∧ isEmptyContainer (prune t) = true ∧ s = []) ∨
+  (¬ (o.skipEmpty = true ∧ isEmptyContainer (prune t) = true) ∧ Ren (dropEmptyIf o t) s)
+
+theorem Out_of_AccL (o : Opts) (lvl : Nat) (c : Cls) (xs : List Val) {body : Str}
+    (h : AccL (dropL o xs) body) : Out o (.list c xs) (closeUp o lvl '[' ']' body) := by
+  unfold Out dropEmptyIf
+  unfold dropL at h
+  cases hs : o.skipEmpty
+  · -- skip off
+    simp only [hs, Bool.false_eq_true, if_false, false_and, not_false_eq_true, true_and, false_or] at h ⊢
+    cases xs with
+    | nil =>
+      simp only [AccL] at h; subst h
+      rw [closeUp_nil, hs]
+      simp only [Bool.false_eq_true, if_false, Ren]
+      exact ⟨sp o ++ sp o, Ws_append (Ws_sp o) (Ws_sp o), by simp⟩
+    | cons x rest =>
+      simp only [AccL] at h
+      obtain ⟨r, t, hr, ht, rfl⟩ := h
+      obtain ⟨w, w', hw, hw', he⟩ := closeUp_ne o lvl '[' ']' (body := r ++ t)
+        (by have := Ren_ne_nil hr; simp [this])
+      rw [he]
+      simp only [Ren]
+      exact ⟨w ++ (r ++ (t ++ w')), ⟨w, r, t ++ w', hw, hr, RenTail_ws rest t w' ht hw', rfl⟩, by simp⟩
+  · simp only [hs, if_true, true_and, prune] at h ⊢
+    cases hp : pruneList xs with
+    | nil =>
+      rw [hp] at h
+      simp only [AccL] at h; subst h
+      left
+      rw [closeUp_nil, hs]
+      simp [isEmptyContainer]
+    | cons x rest =>
+      rw [hp] at h
+      right
+      simp only [AccL] at h
+      obtain ⟨r, t, hr, ht, rfl⟩ := h
+      obtain ⟨w, w', hw, hw', he⟩ := closeUp_ne o lvl '[' ']' (body := r ++ t)
+        (by have := Ren_ne_nil hr; simp [this])
+      rw [he]
+      refine ⟨by simp [isEmptyContainer], ?_⟩
+      simp only [Ren]
+      exact ⟨w ++ (r ++ (t ++ w')), ⟨w, r, t ++ w', hw, hr, RenTail_ws rest t w' ht hw', rfl⟩, by simp⟩
+
+theorem Out_of_AccK (o : Opts) (lvl : Nat) (c : Cls) (kvs : List (Str × Val)) {body : Str}
+    (h : AccK (dropK o kvs) body) : Out o (.dict c kvs) (closeUp o lvl '{' '}' body) := by
+  unfold Out dropEmptyIf
+  unfold dropK at h
+  cases hs : o.skipEmpty
+  · simp only [hs, Bool.false_eq_true, if_false, false_and, not_false_eq_true, true_and, false_or] at h ⊢
+    cases kvs with
+    | nil =>
+      simp only [AccK] at h; subst h
+      rw [closeUp_nil, hs]
+      simp only [Bool.false_eq_true, if_false, Ren]
+      exact ⟨sp o ++ sp o, Ws_append (Ws_sp o) (Ws_sp o), by simp⟩
+    | cons x rest =>
+      obtain ⟨k, v⟩ := x
+      simp only [AccK] at h
+      obtain ⟨w1, w2, r, t, h1, h2, hr, ht, rfl⟩ := h
+      obtain ⟨w, w', hw, hw', he⟩ := closeUp_ne o lvl '{' '}' (body := quoted k ++ (w1 ++ ':' :: (w2 ++ (r ++ t))))
+        (by simp [quoted])
+      rw [he]
+      simp only [Ren]
+      exact ⟨w ++ (quoted k ++ (w1 ++ ':' :: (w2 ++ (r ++ (t ++ w'))))),
+        ⟨w, w1, w2, r, t ++ w', hw, h1, h2, hr, RenTailK_ws rest t w' ht hw', rfl⟩, by simp⟩
+  · simp only [hs, if_true, true_and, prune] at h ⊢
+    cases hp : pruneKvs kvs with
+    | nil =>
+      rw [hp] at h
+      simp only [AccK] at h; subst h
+      left
+      rw [closeUp_nil, hs]
+      simp [isEmptyContainer]
+    | cons x rest =>
+      obtain ⟨k, v⟩ := x
+      rw [hp] at h
+      right
+      simp only [AccK] at h
+      obtain ⟨w1, w2, r, t, h1, h2, hr, ht, rfl⟩ := h
+      obtain ⟨w, w', hw, hw', he⟩ := closeUp_ne o lvl '{' '}' (body := quoted k ++ (w1 ++ ':' :: (w2 ++ (r ++ t))))
+        (by simp [quoted])
+      rw [he]
+      refine ⟨by simp [isEmptyContainer], ?_⟩
+      simp only [Ren]
+      exact ⟨w ++ (quoted k ++ (w1 ++ ':' :: (w2 ++ (r ++ (t ++ w'))))),
+        ⟨w, w1, w2, r, t ++ w', hw, h1, h2, hr, RenTailK_ws rest t w' ht hw', rfl⟩, by simp⟩
+
+theorem pretty_list_np {o : Opts} (h : o.pairsOn = false) (lvl : Nat) (c : Cls) (xs : List Val) :
+    pretty o lvl (.list c xs) = closeUp o lvl '[' ']' (prettyItems o lvl xs []) := by
+  simp [pretty, h]
+
+theorem joinItem_eq (o : Opts) (lvl : Nat) (cond : Bool) (acc sub : Str) :
+    joinItem o lvl cond acc sub
+      = (if !acc.isEmpty then acc ++ [','] ++ (if cond then sp o else nlAt o (lvl + 1)) else acc) ++ sub := rfl
+
+theorem dropL_cons_drop {o : Opts} {x : Val} (xs : List Val)
+    (hs : o.skipEmpty = true) (he : isEmptyContainer (prune x) = true) :
+    dropL o (x :: xs) = dropL o xs := by
+  simp [dropL, hs, pruneList, he]
+
+theorem dropL_cons_keep {o : Opts} {x : Val} (xs : List Val)
+    (h : ¬ (o.skipEmpty = true ∧ isEmptyContainer (prune x) = true)) :
+    dropL o (x :: xs) = dropEmptyIf o x :: dropL o xs := by
+  unfold dropL dropEmptyIf
+  cases hs : o.skipEmpty
+  · simp
+  · have : isEmptyContainer (prune x) = false := by
+      cases he : isEmptyContainer (prune x)
+      · rfl
+      · exact absurd ⟨hs, he⟩ h
+    simp [pruneList, this]
+
+theorem dropK_cons_drop {o : Opts} {k : Str} {v : Val} (kvs : List (Str × Val))
+    (hs : o.skipEmpty = true) (he : isEmptyContainer (prune v) = true) :
+    dropK o ((k, v) :: kvs) = dropK o kvs := by
+  simp [dropK, hs, pruneKvs, he]
+
+theorem dropK_cons_keep {o : Opts} {k : Str} {v : Val} (kvs : List (Str × Val))
+    (h : ¬ (o.skipEmpty = true ∧ isEmptyContainer (prune v) = true)) :
+    dropK o ((k, v) :: kvs) = (k, dropEmptyIf o v) :: dropK o kvs := by
+  unfold dropK dropEmptyIf
+  cases hs : o.skipEmpty
+  · simp
+  · have : isEmptyContainer (prune v) = false := by
+      cases he : isEmptyContainer (prune v)
+      · rfl
+      · exact absurd ⟨hs, he⟩ h
+    simp [pruneKvs, this]
+
+theorem Out_scalar (o : Opts) (v : Val) (hne : isEmptyContainer (prune v) = false)
+    (hr : Ren (dropEmptyIf o v) (scalarText v)) : Out o v (scalarText v) :=
+  Or.inr ⟨by simp [hne], hr⟩
+
+mutual
+theorem pretty_ren (o : Opts) (hp : o.pairsOn = false) : ∀ (t : Val), wf t = true → ∀ (lvl : Nat),
+    lvl + depth t ≤ 111 → Out o t (pretty o lvl t)
+  | .none, _, lvl, _ => by
+    simp only [pretty]
+    exact Out_scalar o _ (by simp [prune, isEmptyContainer]) (by unfold dropEmptyIf; split <;> simp [prune, Ren])
+  | .bool b, _, lvl, _ => by
+    simp only [pretty]
+    exact Out_scalar o _ (by simp [prune, isEmptyContainer]) (by unfold dropEmptyIf; split <;> simp [prune, Ren])
+  | .int i, _, lvl, _ => by
+    simp only [pretty]
+    exact Out_scalar o _ (by simp [prune, isEmptyContainer]) (by unfold dropEmptyIf; split <;> simp [prune, Ren])
+  | .str x, _, lvl, _ => by
+    simp only [pretty]
+    exact Out_scalar o _ (by simp [prune, isEmptyContainer]) (by unfold dropEmptyIf; split <;> simp [prune, Ren])
+  | .flt r, hw, lvl, _ => by
+    simp only [pretty]
+    simp only [wf] at hw
+    exact Out_scalar o _ (by simp [prune, isEmptyContainer])
+      (by unfold dropEmptyIf; split <;> simp [prune, Ren, scalarText, hw])
+  | .list c xs, hw, lvl, hd => by
+    rw [pretty_list_np hp]
+    apply Out_of_AccL
+    simp only [wf] at hw
+    simp only [depth] at hd
+    have := items_ren o hp xs hw lvl [] [] (by omega) (by omega) (by simp [AccL])
+    simpa using this
+  | .dict c kvs, hw, lvl, hd => by
+    simp only [pretty]
+    apply Out_of_AccK
+    simp only [wf, Bool.and_eq_true] at hw
+    simp only [depth] at hd
+    have := kvs_ren o hp kvs hw.1 lvl (condense kvs) [] [] (by omega) (by omega) (by simp [AccK])
+    simpa using this
+theorem items_ren (o : Opts) (hp : o.pairsOn = false) : ∀ (xs : List Val), wfL xs = true →
+    ∀ (lvl : Nat) (acc : Str) (done : List Val), lvl < 111 → lvl + 1 + depthL xs ≤ 111 →
+    AccL done acc → AccL (done ++ dropL o xs) (prettyItems o lvl xs acc)
+  | [], _, lvl, acc, done, _, _, ha => by
+    have : dropL o [] = [] := by unfold dropL; split <;> simp [pruneList]
+    simpa [prettyItems, this] using ha
+  | x :: xs, hw, lvl, acc, done, hl, hd, ha => by
+    simp only [wfL, Bool.and_eq_true] at hw
+    simp only [depthL] at hd
+    have hx := pretty_ren o hp x hw.1 (lvl + 1) (by omega)
+    simp only [prettyItems, hl, ↓reduceIte]
+    rcases hx with ⟨hs, he, hnil⟩ | ⟨hne, hr⟩
+    · rw [hnil, dropL_cons_drop xs hs he]
+      simp only [hs, List.isEmpty_nil, Bool.and_self, ↓reduceIte]
+      exact items_ren o hp xs hw.2 lvl acc done hl (by omega) ha
+    · have hsub : (pretty o (lvl + 1) x).isEmpty = false := by
+        have := Ren_ne_nil hr
+        cases h : pretty o (lvl + 1) x <;> simp_all
+      rw [dropL_cons_keep xs hne]
+      simp only [hsub, Bool.and_false, Bool.false_eq_true, ↓reduceIte]
+      have ha' := AccL_step ha hr (Ws_nlAt o (lvl + 1))
+      have := items_ren o hp xs hw.2 lvl _ _ hl (by omega) ha'
+      simpa [joinItem_eq] using this
+theorem kvs_ren (o : Opts) (hp : o.pairsOn = false) : ∀ (kvs : List (Str × Val)), wfK kvs = true →
+    ∀ (lvl : Nat) (cond : Bool) (acc : Str) (done : List (Str × Val)), lvl < 111 → lvl + 1 + depthK kvs ≤ 111 →
+    AccK done acc → AccK (done ++ dropK o kvs) (prettyKvs o lvl cond kvs acc)
+  | [], _, lvl, cond, acc, done, _, _, ha => by
+    have : dropK o [] = [] := by unfold dropK; split <;> simp [pruneKvs]
+    simpa [prettyKvs, this] using ha
+  | (k, v) :: kvs, hw, lvl, cond, acc, done, hl, hd, ha => by
+    simp only [wfK, Bool.and_eq_true] at hw
+    simp only [depthK] at hd
+    have hx := pretty_ren o hp v hw.1 (lvl + 1) (by omega)
+    simp only [prettyKvs, hl, ↓reduceIte]
+    rcases hx with ⟨hs, he, hnil⟩ | ⟨hne, hr⟩
+    · rw [hnil, dropK_cons_drop kvs hs he]
+      simp only [hs, List.isEmpty_nil, Bool.and_self, ↓reduceIte]
+      exact kvs_ren o hp kvs hw.2 lvl cond acc done hl (by omega) ha
+    · have hsub : (pretty o (lvl + 1) v).isEmpty = false := by
+        have := Ren_ne_nil hr
+        cases h : pretty o (lvl + 1) v <;> simp_all
+      rw [dropK_cons_keep kvs hne]
+      simp only [hsub, Bool.and_false, Bool.false_eq_true, ↓reduceIte]
+      have hw' : Ws (if cond then sp o else nlAt o (lvl + 1)) := by
+        split
+        · exact Ws_sp o
+        · exact Ws_nlAt o (lvl + 1)
+      have ha' := AccK_step (k := k) ha hr hw' (Ws_sp o)
+      have := kvs_ren o hp kvs hw.2 lvl cond _ _ hl (by omega) ha'
+      simpa [joinItem_eq] using this
+end
+
 end N0.Json
